@@ -313,6 +313,28 @@ def run(task):
                         res.outcomes[kind2 or "ok-absent-inserted"] += 1
                         if kind2:
                             res.violation("C13|absent-inserted:%s|before %s" % (kind2, stmts[i].kind), "%s INCLUDE of a missing file inserted before statement %d %r; reader=%s ic=%s\n%s\n--- main:\n%s" % (pid, i + 1, stmts[i].line(), reader_kind, ic, detail, main), {"mode": "absent", "insert": True, "main": main, "reader": reader_kind, "ic": ic, "std": std, "base_lines": base_lines, "i": i, "tag": "before " + stmts[i].kind}, cost=len(main))
+            # the INCLUDE line OUTSIDE the program units (before the first, between two,
+            # after the last), in three spellings of the keyword
+            ds0 = corpus.depths(prog)
+            real = [(s, d) for s, d in zip(prog, ds0) if s.kind != "program_anon"]
+            if len(real) == len(stmts) and not any(s.kind == "program_anon" for s in prog):
+                bounds = [i for i, (s, d) in enumerate(real) if d == 0 and s.role == "open"] + [len(real)]
+                for bi, i in enumerate(bounds):
+                    kw = ["INCLUDE", "Include", "include"][bi % 3]
+                    main = "\n".join(L[:i] + [" %s 'absent_file.inc'" % kw] + L[i:]) + "\n"
+                    for reader_kind in ("string", "file"):
+                        for ic in (True, False):
+                            work.clear()
+                            res.evals += 1
+                            res.transitions += 1
+                            hk = h64(main, reader_kind, str(ic), "between")
+                            res.states.add(hk)
+                            res.nontrivial.add(hk)
+                            o = parse_with(work, main, reader_kind, [work.d1], std, ic)
+                            kind2, detail = judge_absent(o, base_lines, i, insert=True)
+                            res.outcomes[kind2 or "ok-absent-between-units"] += 1
+                            if kind2:
+                                res.violation("C13|absent-between-units:%s|%s" % (kind2, kw), "%s %s of a missing file before line %d (outside the program units); reader=%s ic=%s\n%s\n--- main:\n%s" % (pid, kw, i + 1, reader_kind, ic, detail, main), {"mode": "absent", "insert": True, "between": kw, "main": main, "reader": reader_kind, "ic": ic, "std": std, "base_lines": base_lines, "i": i, "tag": kw}, cost=len(main))
     finally:
         work.close()
     return res
@@ -467,7 +489,7 @@ def replay(case):
             k, d = judge_absent(o, case["base_lines"], case["i"], insert=bool(case.get("insert")))
         finally:
             work.close()
-        return [{"sig": "C13|absent%s:%s|%s" % ("-inserted" if case.get("insert") else "", k, case["tag"]), "detail": d}] if k else []
+        return [{"sig": "C13|absent%s:%s|%s" % ("-between-units" if case.get("between") else ("-inserted" if case.get("insert") else ""), k, case["tag"]), "detail": d}] if k else []
     if case.get("mode") == "history":
         from mc.forktree import run_isolated
 
